@@ -4,7 +4,7 @@
 # the property's quick check on that worktree with the patch applied (VERIF_REPO); /repo itself is never touched.
 set -u
 SD=$1; PROP=$2; NAME=${3:-$PROP}
-EV=/tmp/scratch/ev
+EV=${SEEDWT:-/tmp/scratch/ev}; TAG=${SEEDTAG:-}
 mkdir -p /tmp/scratch
 if [ ! -d $EV ]; then git -C /repo worktree add -q --detach $EV HEAD; fi
 cd $EV && git checkout -q --detach $(git -C /repo rev-parse HEAD) && git checkout -q -- . && git clean -fdq -e target
@@ -16,17 +16,17 @@ SUITE=$(cargo test --workspace --no-fail-fast --offline 2>&1 | grep -E "^test re
 echo "== suite with change: $SUITE"
 # (2) demo with the change
 git apply $SD/demo.diff || { echo "DEMO-DOES-NOT-APPLY"; exit 2; }
-( eval "$DEMO" ) > /tmp/scratch/demo_with.log 2>&1; RC_WITH=$?
-echo "== demo with change: rc=$RC_WITH  $(grep -E '^test result' /tmp/scratch/demo_with.log | tr '\n' ' ')"
+( eval "$DEMO" ) > /tmp/scratch/demo_with$TAG.log 2>&1; RC_WITH=$?
+echo "== demo with change: rc=$RC_WITH  $(grep -E '^test result' /tmp/scratch/demo_with$TAG.log | tr '\n' ' ')"
 # (3) demo without the change
 git apply -R $SD/patch.diff
-( eval "$DEMO" ) > /tmp/scratch/demo_without.log 2>&1; RC_WITHOUT=$?
-echo "== demo without change: rc=$RC_WITHOUT  $(grep -E '^test result' /tmp/scratch/demo_without.log | tr '\n' ' ')"
+( eval "$DEMO" ) > /tmp/scratch/demo_without$TAG.log 2>&1; RC_WITHOUT=$?
+echo "== demo without change: rc=$RC_WITHOUT  $(grep -E '^test result' /tmp/scratch/demo_without$TAG.log | tr '\n' ' ')"
 git checkout -q -- . && git clean -fdq -e target
 # (4) the check, on the scratch worktree with only the patch applied (never on /repo itself)
 git apply $SD/patch.diff
 cd /verif
-VERIF_REPO=$EV VERIF_OUT=/tmp/scratch/evout VERIF_EVIDENCE=/tmp/scratch/evev ./check $PROP quick > /tmp/scratch/check_$NAME.log 2>&1; RC_CHECK=$?
+VERIF_REPO=$EV VERIF_OUT=/tmp/scratch/evout$TAG VERIF_EVIDENCE=/tmp/scratch/evev$TAG ./check $PROP quick > /tmp/scratch/check_$NAME.log 2>&1; RC_CHECK=$?
 git -C $EV checkout -q -- . ; git -C $EV clean -fdq -e target
 echo "== check $PROP rc=$RC_CHECK"
 grep -E "^(VIOLATION|KNOWN|OK|TOOL)" /tmp/scratch/check_$NAME.log | cut -c1-300
